@@ -104,15 +104,22 @@ def lake_build(targets=('QecVerif', 'qvdriver')):
 
 
 def prop_theorems(pid):
-    """names of the property theorems: every `theorem` in Props/<pid>.lean"""
-    path = os.path.join(LEAN, 'QecVerif', 'Props', pid + '.lean')
-    if not os.path.exists(path):
-        return path, []
-    src = strip_comments(open(path).read())
-    ns = re.findall(r'^namespace\s+(\S+)', src, flags=re.M)
-    prefix = (ns[0] + '.') if ns else ''
-    names = re.findall(r'^(?:protected\s+)?theorem\s+(\S+)', src, flags=re.M)
-    return path, [prefix + n for n in names]
+    """names of the property theorems: every `theorem` in Props/<pid>.lean and Props/<pid>/*.lean"""
+    base = os.path.join(LEAN, 'QecVerif', 'Props')
+    paths = [os.path.join(base, pid + '.lean')]
+    sub = os.path.join(base, pid)
+    if os.path.isdir(sub):
+        paths += sorted(os.path.join(sub, f) for f in os.listdir(sub) if f.endswith('.lean'))
+    out = []
+    for path in paths:
+        if not os.path.exists(path):
+            continue
+        src = strip_comments(open(path).read())
+        ns = re.findall(r'^namespace\s+(\S+)', src, flags=re.M)
+        prefix = (ns[0] + '.') if ns else ''
+        names = re.findall(r'^(?:protected\s+)?theorem\s+(\S+)', src, flags=re.M)
+        out += [prefix + n for n in names]
+    return paths[0], out
 
 
 def axiom_audit(pid, names):
